@@ -8,7 +8,7 @@
     frame contents. *)
 From Coq Require Import NArith ZArith List Bool Permutation.
 From M17 Require Import Bits ImplUtilBits ConstsInterleave ConstsRandomizer ImplInterleave ImplRandom
-  SpecInterleave SpecRandom LemmasUtilBits LemmasInterleave LemmasRandom.
+  SpecInterleave SpecRandom LemmasUtilBits LemmasInterleave LemmasRandom LemmasC10.
 Import ListNotations.
 
 (** * Interleaver *)
@@ -31,13 +31,13 @@ Print Assumptions c10_all_sites_are_m17.
 (** interleave puts element i at position π(i); the result has 368 elements (any element type, any content) *)
 Theorem c10_interleave_spec : forall (A : Type) (d : A) (l : list A),
   length (interleave d l) = 368 /\ forall i, i < 368 -> nth (pi i) (interleave d l) d = nth i l d.
-Proof. intros A d l. split; [apply interleave_length_lemma|]. intros i Hi. rewrite <- il_index_is_pi. apply interleave_nth_lemma. exact Hi. Qed.
+Proof. exact interleave_spec_thm. Qed.
 Print Assumptions c10_interleave_spec.
 
 (** deinterleave fetches element i from position π(i) *)
 Theorem c10_deinterleave_spec : forall (A : Type) (d : A) (l : list A),
   length (deinterleave d l) = 368 /\ forall i, i < 368 -> nth i (deinterleave d l) d = nth (pi i) l d.
-Proof. intros A d l. split; [apply deinterleave_length_lemma|]. intros i Hi. rewrite <- il_index_is_pi. apply deinterleave_nth_lemma. exact Hi. Qed.
+Proof. exact deinterleave_spec_thm. Qed.
 Print Assumptions c10_deinterleave_spec.
 
 (** the fill value of the scratch buffer never shows in the result of a 368-element frame *)
@@ -62,12 +62,12 @@ Print Assumptions c10_interleave_is_deinterleave.
 Theorem c10_bytes_variant_agrees : forall b : list N,
   bytes_bits (interleave_bytes b) = interleave false (bytes_bits b) /\
   bytes_bits (deinterleave_bytes b) = deinterleave false (bytes_bits b).
-Proof. intro b. split; [apply interleave_bytes_bits_lemma | apply deinterleave_bytes_bits_lemma]. Qed.
+Proof. exact bytes_variant_agrees_thm. Qed.
 Print Assumptions c10_bytes_variant_agrees.
 
 Theorem c10_bytes_roundtrip : forall b : list N, length b = 46 -> all_bytes b ->
   deinterleave_bytes (interleave_bytes b) = b /\ interleave_bytes (deinterleave_bytes b) = b.
-Proof. intros b Hl Hb. split; [apply deinterleave_interleave_bytes_lemma | apply interleave_deinterleave_bytes_lemma]; assumption. Qed.
+Proof. exact bytes_roundtrip_thm. Qed.
 Print Assumptions c10_bytes_roundtrip.
 
 (** * Randomizer *)
@@ -136,7 +136,7 @@ Theorem c10_variants_agree :
      map hardN (derandomize_soft s) = randomize_bits (map hardN s)) /\
   (forall b : list N, length b = 46 -> all_bytes b ->
      map b2n (bytes_bits (randomize_bytes b)) = randomize_bits (map b2n (bytes_bits b))).
-Proof. split; [exact variants_agree_soft_bits_lemma | exact variants_agree_bytes_bits_lemma]. Qed.
+Proof. exact variants_agree_thm. Qed.
 Print Assumptions c10_variants_agree.
 
 (** * Non-vacuity: concrete frames *)
